@@ -192,6 +192,11 @@ S2S_Q = {
     "A": ([0.0, 0.0, 0.0, 1.0, 0.0, 0.0, 0.0], [1.0, 0.2, 0.3, 1.0, 0.5, 0.0, 0.0]),
     "B": ([0.0, 0.0, 0.0, 1.0, 0.0, 0.0, 0.0], [0.5, 0.9, -0.3, 1.0, 0.5, 0.0, 0.0]),
     "C": ([0.1, -0.2, 0.0, 1.0, 0.0, 0.2, 0.0], [-0.4, 0.3, 0.8, 0.7, 0.0, 0.0, 0.7]),
+    # sphere 2 exactly on top of sphere 1 (Z), moved inside the x-z plane (X), and off that plane (Y): a step callback from Z to X
+    # turns the reference contact basis about the inertial y-axis, so the y-components of t1, t2, n do not change
+    "Z": ([0.0, 0.0, 0.0, 1.0, 0.0, 0.0, 0.0], [0.0, 0.0, 1.0, 1.0, 0.5, 0.0, 0.0]),
+    "X": ([0.0, 0.0, 0.0, 1.0, 0.0, 0.0, 0.0], [0.6, 0.0, 0.8, 1.0, 0.5, 0.0, 0.0]),
+    "Y": ([0.0, 0.0, 0.0, 1.0, 0.0, 0.0, 0.0], [0.3, 0.5, 0.7, 1.0, 0.5, 0.0, 0.0]),
 }
 
 
